@@ -242,6 +242,9 @@ func (g *Gen) closeLoop(li *loopInfo, q *ssa.BasicBlock, si int) error {
 	c := g.edgeCond(q, si)
 	// soundness self-check: everything the body changed must be in the havoc set
 	for comp, t := range st.heap {
+		if strings.HasPrefix(comp, "local.in") {
+			continue // private memory of one inlined call: allocated and dead within the call
+		}
 		if !li.modSet[comp] && g.heapTerm(li.headerState, comp) != t {
 			return fmt.Errorf("internal: loop %d body writes component %s that is not in its computed write set", li.idx, comp)
 		}
@@ -333,10 +336,38 @@ func (g *Gen) closeLoop(li *loopInfo, q *ssa.BasicBlock, si int) error {
 func (g *Gen) loopMods(li *loopInfo) (comps []string, ghosts []string) {
 	cs := map[string]bool{}
 	gs := map[string]bool{}
+	var bodyInstrs []ssa.Instruction
 	for b := range li.blocks {
-		for _, in := range b.Instrs {
-			for _, c := range g.eng.instrWrites(in, g) {
-				cs[c] = true
+		bodyInstrs = append(bodyInstrs, b.Instrs...)
+	}
+	// instructions of helpers that will be inlined at calls in the body: their
+	// calls and events are part of this function's history too
+	var extra []ssa.Instruction
+	var expand func(ins []ssa.Instruction, depth int)
+	expand = func(ins []ssa.Instruction, depth int) {
+		if depth > 3 {
+			return
+		}
+		for _, in := range ins {
+			if call, ok := in.(*ssa.Call); ok {
+				if callee := call.Call.StaticCallee(); callee != nil && !call.Call.IsInvoke() && g.canInline(callee) {
+					for _, cb := range callee.Blocks {
+						extra = append(extra, cb.Instrs...)
+						expand(cb.Instrs, depth+1)
+					}
+				}
+			}
+		}
+	}
+	expand(bodyInstrs, 1)
+	inBody := len(bodyInstrs)
+	bodyInstrs = append(bodyInstrs, extra...)
+	for idx, in := range bodyInstrs {
+		{
+			if idx < inBody {
+				for _, c := range g.eng.instrWrites(in, g) {
+					cs[c] = true
+				}
 			}
 			if dr, ok := in.(*ssa.DebugRef); ok && !dr.IsAddr {
 				// GlobalDebug emits a DebugRef for every reference; the variable
